@@ -1,15 +1,189 @@
 /-
   Props/C09.lean — evaluating a diagram computes its compositional meaning.
-  (being filled in; see Proofs/TensorFunctor*.lean)
+
+  Statement (properties.jsonl C09): the tensor a tensor-functor assigns to a diagram equals the
+  layer-by-layer composite (identity on the left wires) ⊗ (tensor of the box) ⊗ (identity on the
+  right wires) of the tensors it assigns to the boxes, with swaps, cups, caps, daggered boxes,
+  spiders, bubbles and sums interpreted by their defining tensors; in particular evaluation is
+  invariant under interchange and normalisation, and `Diagram.eval` is the identity-on-arrays
+  functor.
+
+  Model: `TFunctor.call` (Model/Tensor.lean) transcribes the single-pass loop of
+  `tensor.Functor.__call__` (tensor.py:365-391: `tensordot` on tracked axis positions, then
+  `moveaxis` of the new axes; swaps special-cased as a `moveaxis` of the running array);
+  `TFunctor.layerwise` is the reference semantics: the fold of
+  `acc >> (Tensor.id(F left) @ F(box) @ Tensor.id(F right))` over the layers, with
+  `F(swap) = Tensor.swap`, `F(cup) = Tensor.cups`, `F(cap) = Tensor.caps`,
+  `F(f†) = F(f).dagger()` (tensor.py:352-361).
+
+  PROVED (over any commutative star semiring, all diagrams, all object maps incl. dimension 1
+  and multi-wire `Dim`s, all arrays; `GaussInt`, at which the compiled model runs, is one):
+  * `functor_eval_eq_layers_partial`: on a well-typed diagram (`Diagram.WF`, the C01 predicate)
+    whose swap boxes are swaps, if every box is sent to a well-formed tensor of the type the
+    functor assigns to it (`BoxOK`), the two programs return the SAME result — the same tensor,
+    or the same error when some `F(box)` fails (wrong array size).  Proof: induction over the
+    layers with the loop invariant `Inv` (running array has axes `[F dom | F scan | 1…1]` and,
+    reshaped, is the composite so far); box branch `stepBox_spec`, swap branch `stepSwap_spec`.
+  * `BoxOK` is discharged for generators and daggered generators (`boxOK_gen`), swaps
+    (`boxOK_swap`), and cups/caps when every object is sent to at most one wire — an `int` or a
+    `Dim` of length ≤ 1, "dimension per atomic type" in the property's words (`boxOK_cup`,
+    `boxOK_cap`).  Hence `functor_eval_eq_layers_atomic` has no hypothesis on `F(box)` at all.
+  * `call_ofBox`: a box seen as a one-box diagram evaluates to `F(box)` (the `Box` branch of
+    `__call__`, tensor.py:356-361, agrees with the loop).
+  * `obj_to_dim_ignores_z`: winding numbers are erased by the object map.
+
+  NOT PROVED (stated as `def … : Prop`, no theorem claims them):
+  * `functor_eval_eq_layers_full`: the same without `BoxOK`, i.e. also for cups/caps over an
+    object sent to a multi-wire `Dim` (nested cups of rigid.py:449-454; `Tensor.cups` then
+    raises unless the Dim is a palindrome).  Covered by correspondence + oracle only.
+  * invariance under interchange / normal form as a Lean theorem needs the SMC layer-exchange
+    lemma (C05/C06) instantiated at tensors; the algebra it needs is proved under C08
+    (`interchange_law`, unit laws).  Checked by the oracle of harness/props/c09.py.
+  * spiders, bubbles, sums: a spider is a generator whose array is `Tensor.spiderArray`
+    (recorded in the model, covered by `boxOK_gen`); bubbles (`map func`) and sums
+    (`Tensor.add` fold) are not part of `TFunctor.call`; the harness checks them on real code.
 -/
-import Model.Tensor
+import Proofs.TensorFunctor
+import Proofs.GaussInt
 
 namespace DV.C09
-open DV
+open DV DV.TFunctor
+
+section
+variable {R : Type} [CommSemiring R] [StarRing R]
 
 /-- The object map ignores winding numbers (tensor.py:341-351). -/
-theorem obj_to_dim_ignores_z {R} (F : TFunctor R) (o : Ob) (z : Int) :
+theorem obj_to_dim_ignores_z (F : TFunctor R) (o : Ob) (z : Int) :
     F.ty [{ o with z := z }] = F.ty [o] := by
   simp [TFunctor.ty]
+
+/-- The object map is monoidal: `F(s @ t) = F(s) @ F(t)`, `F(Ty()) = Dim(1)`. -/
+theorem functor_ty_monoidal (F : TFunctor R) (s t : Ty) :
+    F.ty (s ++ t) = F.ty s ++ F.ty t ∧ F.ty [] = [] :=
+  ⟨ty_append F s t, rfl⟩
+
+/-- **Single-pass evaluation = layer-by-layer composite** (both branches of the loop). -/
+theorem functor_eval_eq_layers_partial (F : TFunctor R) (d : Diagram) (hwf : d.WF)
+    (hsw : ∀ b ∈ d.boxes, SwapOK b) (hbox : ∀ b ∈ d.boxes, BoxOK F b) :
+    F.call d = F.layerwise d :=
+  call_eq_layerwise F d hwf hsw hbox
+
+/-- Generators, daggered generators and swaps always satisfy `BoxOK`. -/
+theorem boxOK_gen_swap (F : TFunctor R) (b : Box) (h : b.kind = .gen ∨ (b.kind = .swap ∧ SwapOK b)) :
+    BoxOK F b := by
+  rcases h with h | ⟨h, hs⟩
+  · exact boxOK_gen F b h
+  · exact boxOK_swap F b h hs
+
+/-- With one dimension per atomic type (every object sent to at most one wire) the equality of
+    the two programs holds for ALL well-typed rigid diagrams with genuine swap/cup/cap boxes,
+    all arrays. -/
+theorem functor_eval_eq_layers_atomic (F : TFunctor R) (hF : Atomic F) (d : Diagram)
+    (hwf : d.WF) (hgen : ∀ b ∈ d.boxes, Genuine b) :
+    F.call d = F.layerwise d :=
+  call_eq_layerwise F d hwf (fun b hb => (hgen b hb).1)
+    (fun b hb => boxOK_of_atomic F hF b (hgen b hb))
+
+/-- Diagrams without cups and caps: every object map (multi-wire `Dim`s included). -/
+theorem functor_eval_eq_layers_monoidal (F : TFunctor R) (d : Diagram) (hwf : d.WF)
+    (hk : ∀ b ∈ d.boxes, b.kind = .gen ∨ (b.kind = .swap ∧ SwapOK b)) :
+    F.call d = F.layerwise d :=
+  call_eq_layerwise F d hwf
+    (fun b hb => by
+      rcases hk b hb with h | ⟨_, hs⟩
+      · intro h'; rw [h] at h'; cases h'
+      · exact hs)
+    (fun b hb => boxOK_gen_swap F b (hk b hb))
+
+/-- The `Box` branch of `__call__` agrees with the loop on the one-box diagram. -/
+theorem call_ofBox (F : TFunctor R) (b : Box) (hk : b.kind ≠ .swap) (hb : BoxOK F b) :
+    F.call (Diagram.ofBox b) = F.box b := by
+  rw [call_eq_layerwise F _ (Diagram.ofBox_wf b)
+    (fun b' hb' => by
+      have : b' = b := by simpa [Diagram.ofBox] using hb'
+      intro h; rw [this] at h; exact absurd h hk)
+    (fun b' hb' => by
+      have : b' = b := by simpa [Diagram.ofBox] using hb'
+      rw [this]; exact hb)]
+  exact layerwise_ofBox F b hb
+
+/-- The result of evaluation has the type the functor assigns to the diagram. -/
+theorem functor_eval_type (F : TFunctor R) (d : Diagram) (t : Tensor R) (h : F.call d = .ok t) :
+    t.WF ∧ t.dom = F.ty d.dom ∧ t.cod = F.ty d.cod := by
+  unfold TFunctor.call at h
+  split at h
+  · cases h
+  · exact mk?_ok h
+
+/-- FULL statement (NOT proved): no hypothesis on `F(box)`; includes cups/caps over objects
+    sent to multi-wire `Dim`s. -/
+def functor_eval_eq_layers_full : Prop :=
+  ∀ (F : TFunctor R) (d : Diagram), d.WF → (∀ b ∈ d.boxes, Genuine b) → F.call d = F.layerwise d
+
+end
+
+/-! ### non-vacuity: a concrete rigid diagram with a generator, a daggered generator, a swap, a
+    cap and a cup, a functor into Gaussian-integer tensors with unequal dimensions; the
+    hypotheses hold and both programs return the same tensor (finite check, support only). -/
+
+def xa : Ob := ⟨"a", 0⟩
+def xb : Ob := ⟨"b", 0⟩
+def bf : Box := { name := "f", dom := [xa], cod := [xb, xa] }
+def bg : Box := { name := "g", dom := [xa], cod := [xa], dagger := true }
+def bsw : Box := Box.swap xb xa
+def bcap : Box := Box.cap xb xb.r
+def bcup : Box := Box.cup xb xb.r
+
+/-- `f ; swap ; (g† ⊗ b) ; (a ⊗ b ⊗ cap) ; (a ⊗ b ⊗ cup)` -/
+def d0 : Diagram :=
+  ⟨[xa], [xa, xb], [bf, bsw, bg, bcap, bcup], [0, 0, 0, 2, 2],
+    ⟨[xa], [xa, xb],
+      [⟨[], bf, []⟩, ⟨[], bsw, []⟩, ⟨[], bg, [xb]⟩, ⟨[xa, xb], bcap, []⟩, ⟨[xa, xb], bcup, []⟩]⟩⟩
+
+def F0 : TFunctor GaussInt where
+  ob := fun o => if o.name = "a" then [2] else [3]
+  ar := fun b => if b.name = "f" then
+      ⟨[12], #[⟨1, 0⟩, ⟨0, 1⟩, ⟨2, 0⟩, ⟨0, 0⟩, ⟨1, -1⟩, ⟨3, 0⟩, ⟨0, 0⟩, ⟨1, 0⟩, ⟨0, 2⟩, ⟨1, 1⟩, ⟨0, 0⟩, ⟨-1, 0⟩]⟩
+    else ⟨[4], #[⟨1, 0⟩, ⟨0, 1⟩, ⟨2, 0⟩, ⟨1, 1⟩]⟩
+
+example : d0.WF := by
+  refine ⟨rfl, rfl, rfl, rfl, ?_⟩
+  simp [LArrow.WF, d0, Chain, Layer.dom, Layer.cod, bf, bg, bsw, bcap, bcup, Box.swap, Box.cap,
+    Box.cup, xa, xb, Ob.r]
+
+example : Atomic F0 := by
+  intro o; unfold F0; simp only; split <;> decide
+
+example : ∀ b ∈ d0.boxes, Genuine b := by
+  intro b hb
+  simp only [d0, List.mem_cons, List.not_mem_nil, or_false] at hb
+  rcases hb with rfl | rfl | rfl | rfl | rfl <;>
+    refine ⟨?_, ?_, ?_⟩ <;> intro h <;>
+    first
+      | (simp [bf, bg, bsw, bcap, bcup, Box.swap, Box.cap, Box.cup] at h; done)
+      | exact ⟨xb, xb.r, rfl, rfl, rfl⟩
+      | rfl
+
+/-- the evaluation of `d0` under `F0` succeeds (finite check): the equality below is not an
+    equality of two errors -/
+set_option maxRecDepth 100000 in
+example : (F0.call d0).toOption.isSome = true := by decide +kernel
+
+/-- the theorem applies to `d0`, `F0` -/
+example : F0.call d0 = F0.layerwise d0 :=
+  functor_eval_eq_layers_atomic F0 (by intro o; unfold F0; simp only; split <;> decide) d0
+    (by
+      refine ⟨rfl, rfl, rfl, rfl, ?_⟩
+      simp [LArrow.WF, d0, Chain, Layer.dom, Layer.cod, bf, bg, bsw, bcap, bcup, Box.swap,
+        Box.cap, Box.cup, xa, xb, Ob.r])
+    (by
+      intro b hb
+      simp only [d0, List.mem_cons, List.not_mem_nil, or_false] at hb
+      rcases hb with rfl | rfl | rfl | rfl | rfl <;>
+        refine ⟨?_, ?_, ?_⟩ <;> intro h <;>
+        first
+          | (simp [bf, bg, bsw, bcap, bcup, Box.swap, Box.cap, Box.cup] at h; done)
+          | exact ⟨xb, xb.r, rfl, rfl, rfl⟩
+          | rfl)
 
 end DV.C09
